@@ -2,7 +2,8 @@
 import ast
 
 from ..model import AnchorError, call_name, const_str, dotted, src, parent
-from ..rules import FuncView
+from ..rules import FuncView, defect_scope
+from . import _http
 
 EXPLANATION = (
     "Two encoding clauses: (i) percent-encoding order - every quote/quote_plus call in the HTTP client and "
@@ -12,6 +13,11 @@ EXPLANATION = (
     "first =); (ii) header case-insensitivity - headers are held in lodict on both sides (requester, requestant, "
     "responder, respondent), buildEnviron derives HTTP_* keys with replace('-', '_').upper(), content-type and "
     "content-length map to CONTENT_TYPE/CONTENT_LENGTH.")
+EXPLANATION += (
+    "  (iii) body framing - the chunked reader consumes `size CRLF data CRLF` incrementally: chunk data and the chunk "
+    "end line are read only after the parser waited for those bytes (T1-consume/T1-wait/T1-scan on parseChunk, "
+    "parseLine, parseLeader, parseBody), matching packChunk's writer framing; (iv) D1/D3/D4/D5/D6 defect scan over "
+    "the query/header helper functions of httping used on the round trip.")
 NOT_DECIDED = "value round trip for arbitrary paths, bodies and JSON (runtime)"
 
 SEPARATORS = set("&=?;")
@@ -22,6 +28,35 @@ def check(ctx):
     ctx.rule("T7-query", "updateQargsQuery / Requester.build encode per value; parseQuery/unquoteQuery decode per value")
     ctx.rule("T6-lodict", "headers are lodicts on both sides; HTTP_* environ keys derived case-insensitively")
     repo = ctx.repo
+    ctx.rule("T1-consume", "chunked / fixed-length body bytes are consumed only when complete")
+    ctx.rule("T1-scan", "delimiter searches cover the whole unconsumed buffer")
+    ctx.rule("T1-wait", "a buffer prefix is read only after that many bytes are present")
+    ctx.rule("T6-chunk", "packChunk writes `hex(size) CRLF data CRLF`, the framing parseChunk reads")
+    _http.delete_discipline(ctx, "T1-consume")
+    _http.scan_offsets(ctx, "T1-scan")
+    _http.wait_before_read(ctx, "T1-wait")
+    pc = ctx.fn("aio.http.httping", "packChunk")
+    ctx.use(pc)
+    pieces = []
+    for c in ast.walk(pc):
+        if isinstance(c, ast.Call) and isinstance(c.func, ast.Attribute) and c.func.attr == "append" and c.args:
+            a = c.args[0]
+            consts = [x.value for x in ast.walk(a) if isinstance(x, ast.Constant) and isinstance(x.value, (str, bytes))]
+            if isinstance(a, ast.Name):
+                pieces.append(("name", a.id))
+            else:
+                pieces.append(("const", [k if isinstance(k, str) else k.decode("latin-1") for k in consts]))
+    if len(pieces) < 3 or not any(isinstance(r, ast.Return) for r in ast.walk(pc)):
+        raise AnchorError("packChunk no longer builds the chunk from appended pieces; the writer/reader framing rule needs re-reading")
+    arg = pc.args.args[0].arg
+    ok = len(pieces) == 3 and pieces[0][0] == "const" and any((":x}" in k or "%x" in k) and k.endswith("\r\n") for k in pieces[0][1]) and \
+        pieces[1] == ("name", arg) and pieces[2][0] == "const" and "\r\n" in pieces[2][1]
+    ctx.check(ok, "T6-chunk", pc, "packChunk: size in hex + CRLF, data, CRLF", "the reader parses the size line as hex and expects a bare CRLF after the data")
+    hm = repo.mod("aio.http.httping")
+    hm.ns
+    helpers = [f for n_, f in hm.funcs.items() if n_ in ("updateQargsQuery", "unquoteQuery", "parseQuery", "packHeader", "packChunk",
+                                                         "normalizeHostPort", "httpDate1123", "parseRequestLine", "parseStatusLine")]
+    defect_scope(ctx, "D-scope", helpers, max_depth=1, floor=6, label="scope: httping round-trip helpers")
     n = 0
     for modn in ("aio.http.clienting", "aio.http.httping", "aio.http.serving"):
         m = repo.mod(modn)
